@@ -314,6 +314,18 @@ func constructorWiring(specs ...wiringSpec) func(c *Ctx, id string) {
 				}
 				o := w.Origin(v)
 				if !strings.HasPrefix(o, "param(") || strings.Contains(o, ".") || strings.Contains(o, "call(") {
+					// a layer that is proven to hand every call on untouched (C20.R20) around the parameter is the parameter
+					if call, isCall := unwrap(v).(*ssa.Call); isCall {
+						direct := false
+						for _, a := range call.Common().Args {
+							if ao := w.Origin(a); strings.HasPrefix(ao, "param(") && !strings.Contains(ao, ".") && !strings.Contains(ao, "call(") && sameRole(a.Type(), call.Type()) {
+								direct = true
+							}
+						}
+						if direct && w.provenPassThrough(layerApp{Fn: fn, At: call}) != "" {
+							continue
+						}
+					}
 					bad = append(bad, f+" ← "+o+" (expected the constructor's own parameter)")
 				}
 			}
@@ -954,6 +966,14 @@ func metadataIsTheConfiguredOne(c *Ctx, id string) {
 		case *ssa.Call:
 			if cal := x.Common().StaticCallee(); cal != nil && allowedCtor[fname(cal)] {
 				ok = true
+			} else if cal != nil && w.inModule(cal) {
+				// a selector helper that returns the store it was handed, the known read-only wrapper around it or a
+				// proven pass-through (C20.R20)
+				for _, a := range x.Common().Args {
+					if sameRole(a.Type(), x.Type()) && w.provenPassThrough(layerApp{Fn: fs.Fn, At: x}) != "" {
+						ok = true
+					}
+				}
 			}
 		case *ssa.Parameter:
 			ok = true // SetMetadata / constructor argument
